@@ -1,6 +1,7 @@
 mod common;
 #[cfg(not(feature = "inprocess"))]
 mod frag;
+mod values;
 
 use serde_json::json;
 
@@ -22,6 +23,7 @@ fn main() {
         },
         #[cfg(not(feature = "inprocess"))]
         "frag" => frag::run(),
+        "values" => values::run(),
         _ => {
             eprintln!("usage: vharness <role> ...");
             std::process::exit(2);
